@@ -4,8 +4,10 @@
 #define VERIF_GHOST_H
 #ifdef VERIF_CBMC
 size_t verif_gk;                                                       /* ghost index (P-GIDX) */
-int verif_rb_fail; unsigned verif_rb_calls; const void *verif_rb_buf; size_t verif_rb_len;   /* entropy gateway record */
+int verif_rb_fail; unsigned verif_rb_calls; size_t verif_rb_buf; size_t verif_rb_len;   /* entropy gateway record */
 uint64_t verif_k_drawn[4]; unsigned verif_rand_calls; int verif_rand_fail;                      /* nonce source record */
 unsigned verif_x_bc_calls; int verif_x_bc_last_ca; int verif_x_bc_last_ret; int verif_x_unknown_critical;   /* x509 extension checks */
+unsigned verif_c_ci; unsigned verif_c_chk_calls; int verif_c_chk_type0; int verif_c_chk_type1; int verif_c_chk_nonca; int verif_c_plc_ci;   /* x509 chain */
+size_t verif_c_chk_last; size_t verif_c_chk_first; size_t verif_c_chk_second; unsigned verif_c_vfy_calls; int verif_c_vfy_bad; size_t verif_c_vfy_prev_parent; int verif_c_vfy_second;
 #endif
 #endif
